@@ -1,4 +1,20 @@
-"""C19 — Diagram cache lookups return the cached image of exactly that diagram."""
+"""C19 — Diagram cache lookups return the cached image of exactly that diagram.
+
+A. synthetic converter chains through the real __load_cache / _run_converter_chain / _walk_converters vs Model/DiagCache.v.
+B. the real render(): all cache-file subsets x formats x fallback x ways of giving the cache, three models per specification.
+D. the cache handle as an OBJECT and as a LOCATION:
+   D1 every class satisfying the FileHandler interface (a plain dict-backed one, capellambse's MemoryFileHandler with and
+      without subdir, a subclass of it, handlers with container semantics: __len__ = number of files, and __len__ 0 /
+      __bool__ False / __contains__) in every state: empty at load time and filled later, filled at load time and
+      changed / emptied later - the model must use exactly that object, and every lookup sees its current content;
+   D2 every way of naming a location (str, Path, URL, dict, model-info mapping, LocalFileHandler / get_filehandler
+      instance) x the root (the model's own path as given - directory str, Path, .aird file -, the model's directory, a
+      sub-directory of it, elsewhere) x subdir (absent / given), with files of distinguishable content planted in the
+      configured place AND in the decoy places (next to the model, the cache root when a subdir is configured, a sibling
+      sub-directory, the sub-directory of other roots); a second pass removes diagram A's files from the configured place
+      only.  The oracle names the file that was served.
+C. (thorough) every diagram of the model as subject, random cache contents.
+"""
 from __future__ import annotations
 
 import base64
@@ -934,7 +950,7 @@ def run(chk: lib.Check):
                     place_eff = M               # "same as the model path" for a model given by its .aird file: the model's directory
                 else:
                     place_eff = place
-                what = f"model loaded from {mform}, diagram_cache given as {shape} {replay['diagram_cache']}"
+                what = f"model loaded from {mpath!r} ({label.split(':')[0]}), diagram_cache given as {shape} {replay['diagram_cache']}"
                 if place_eff is None:
                     ev = plant_all()
                     judge(model, "nowhere", {}, ev, allow, key + ":full", what, replay, weak=True)
@@ -1013,7 +1029,13 @@ def run(chk: lib.Check):
                             "(same str / Path / dict / model-info mapping expanded with ** / handler instance): each model must have the "
                             "cache and pass the same oracle (file subsets %r; all 32 on the first model of the ways listed first), and the "
                             "specification object must compare equal to its state before the first load"
-                            % (len(fmts), len(WAYS), maxlen, ", ".join(ALL_WAYS), REPEAT_MASKS))
+                            % (len(fmts), len(WAYS), maxlen, ", ".join(ALL_WAYS), REPEAT_MASKS)
+                            + ". Handler OBJECTS of 6 classes (dict-backed, MemoryFileHandler, with subdir, a subclass, falsy while empty, "
+                            "always falsy) through 3 state sequences (empty at load and filled later, filled and changed later, emptied later) "
+                            "x fallback: the model must use exactly that object and see its current content. LOCATIONS: str / Path / URL / "
+                            "dict / model-info / LocalFileHandler / get_filehandler x root (model path as given: dir str, Path, .aird file; "
+                            "model dir; sub-directory of it; elsewhere) x subdir absent/given, files with place-tagged content in the "
+                            "configured place and in 6 decoy places, second pass with the configured place lacking diagram A's files")
     chk.coverage["exhaustive"] = True
     chk.assumptions += [
         "converters' own behaviour (convert/from_cache) and the internal renderer are parameters of the theorems; the harness inverts the real converters textually to recover which file and which conversions produced a result",
